@@ -10,12 +10,11 @@ PROPS["C02"] = {
         "a panic is attributed to (extractor, innermost function of github.com/google/osv-scalibr on the panic stack); known findings are excluded by that call site only",
     ],
     "engine": "rapid",
-    "technique": "structure-aware mutation of fixture corpora (rapid-drawn, shrinkable, replayable) under recover + watchdog + allocation meter; containment checked by real scans; supervisor process attributes fatal runtime errors to their input; optional native go-fuzz leg in the thorough tier",
+    "technique": "structure-aware mutation of fixture corpora (rapid-drawn, shrinkable, replayable); Extract runs in a child process under recover, a deadline and an allocation watchdog, so that hangs and fatal runtime errors are attributed to their input and re-confirmed in a fresh process; containment checked by real scans",
     "level_text": "Sampled exploration of the input space of each built-in extractor at fuzzing scale; every evaluation is decided by an oracle that needs no expected output (no panic, budget, containment).",
     "level_note": "Memory is observed through allocation totals, not peak RSS. Binary formats whose fixtures were emptied in this sandbox (Go binaries, rpm sqlite/ndb, vmlinuz) only get synthetic or truncated seeds.",
     "legs": [
         {"fam": "fuzzfam", "run": "^TestC02_mutants$"},
-        {"fam": "fuzzfam", "run": "^TestC02_native$", "tiers": ["thorough"], "shards": 1, "no_replay": True},
     ],
     "timeout": {"quick": 900, "thorough": 3000},
 }
